@@ -89,6 +89,16 @@ def r_len(ctx, P, only=None, floors=(70, 55)):
             if k in rev:
                 unan.append(dict(impl=k, why=[str(x) for x in d][:2], reviewed=rev[k]))
                 continue
+            fixed = fixed_size_foreign_encoding(f, k, l)
+            if fixed is not None:
+                if fixed[0] == fixed[1]:
+                    analysed.append(k)
+                    ctx.ok(key, 'R-len', 'write_len of %s is the constant %d and its parser reads exactly that many octets with read_arr::<N> (the writer emits fixed-size encodings of dependency types)' % (k, fixed[0]),
+                           function=pairs[k]['write_len'], feature='parser-constant')
+                    continue
+                ctx.violation(key, 'R-len', 'announced constant length of %s differs from what its parser reads' % k, function=pairs[k]['write_len'],
+                              missing='write_len = %d, parser reads %d octets' % fixed)
+                continue
             ctx.violation(key, 'R-len', 'announced length of %s differs from the bytes it writes' % k, function=pairs[k]['write_len'],
                           missing='; '.join('%s arm: writer %s vs announced %s (%s)' % (m['arm'], m['writer'], m['announced'], m['kind']) for m in d[:4]),
                           table=d[:6])
@@ -103,6 +113,31 @@ def r_len(ctx, P, only=None, floors=(70, 55)):
     ctx.floor(P + ':S05-1:floor:analysed', 'pairs fully analysed and equal', len(analysed), floors[1])
     ctx.extra = dict(getattr(ctx, 'extra', {}), rlen_pairs=len(pairs), rlen_equal=len(analysed), rlen_unanalysed=unan, rlen_undecided=und,
                      rlen_axioms=dict(constant_size_types=const_types, array_fields=len(af)))
+
+
+def fixed_size_foreign_encoding(f, k, l):
+    """For a type whose write_len is one unconditional constant and whose `try_from_reader` consists of read_arr::<N> calls only:
+    (announced constant, octets the parser reads).  None if the shape does not apply."""
+    if l.unanalysed or not l.terms or not all(t[0] == 'const' and not g[0] and not g[1] and not g[2] for g, t in l.terms):
+        return None
+    const = sum(t[1] for g, t in l.terms)
+    body = f.bodies.get(k + '::try_from_reader')
+    if body is None:
+        return None
+    b = core.B(body)
+    sizes = []
+    for i, t in b.calls(r'BufReadParsing::'):
+        m = re.search(r'read_arr(?:_boxed)?::<(\d+)>$', t['f'].get('full', ''))
+        if not m:
+            return None      # the parser reads something that is not a fixed array
+        sizes.append(int(m.group(1)))
+    if not sizes or len(b.returns()) == 0:
+        return None
+    # every read is on the straight path (no loop): each read_arr call block is executed at most once
+    for i, t in b.calls(r'BufReadParsing::'):
+        if i in b.reach_from([t['t']]):
+            return None
+    return (const, sum(sizes))
 
 
 def header_derivation(ctx, P):
